@@ -670,6 +670,14 @@ def check_prefix(ops, k, results, prev_gobs):
         msg = reader_check_cont(w, last[1], last[2][0], res_last["ok"], cobs[last[1]], "step %d container %d:" % (k, last[1]))
         if msg:
             known = known_alias_class(ops, k, w.celems[last[1]], last[1])
+    if (not msg and last[0] == "g" and prev_gobs is not None and last[1] < len(prev_gobs) and last[2][0] in ("ctrlpts", "weights")
+            and res_last and "ok" in res_last and not (last[2][0] == "ctrlpts" and len(last[2]) > 2)):
+        # a rational shape's ctrlpts setter keeps its weights, its weights setter keeps its Cartesian control points
+        a, b = prev_gobs[last[1]], gobs[last[1]]
+        key = "wts" if last[2][0] == "ctrlpts" else "cpts"
+        if "ok" in a.get(key, {}) and a[key]["ok"] is not None and not ("ok" in b.get(key, {}) and gc.closel(a[key]["ok"], b[key]["ok"], 1e-10)):
+            msg = "setter: step %d assigns only the %s of geometry %d but its %s changed from %s to %s" % (
+                k, last[2][0], last[1], "weights" if key == "wts" else "control points", str(a[key].get("ok"))[:120], str(b[key].get("ok"))[:120])
     if not msg and last[0] == "g" and prev_gobs is not None:
         for i in range(min(len(prev_gobs), len(gobs))):
             if i == last[1]:
@@ -1050,6 +1058,12 @@ def mut_templates(rng, df):
         cur = df["delta"][d or 0]
         T.append(("delta-%s" % ("all" if d is None else SUF[d]), [["delta", d, rng.choice([x for x in dls if abs(x - cur) > 1e-9])]]))
         T.append(("sample-%s" % ("all" if d is None else SUF[d]), [["sample", d, rng.choice([k for k in smp if abs(1.0 / k - cur) > 1e-9])]]))
+        if d is None or pd == 1:
+            # a delta whose reciprocal truncates to the present sample count but rounds to one more (e.g. 10 samples -> delta 0.0948):
+            # the sample count changes although int(1 / delta) does not
+            k = int(1.0 / cur + 0.5)
+            if k + 1 <= {1: 12, 2: 5, 3: 3}[pd]:
+                T.append(("delta-frac-%s" % ("all" if d is None else SUF[d]), [["delta", d, 1.0 / (k + 0.55)]]))
     for d in range(pd):
         U, p = df["kv"][d], df["deg"][d]
         prm, num = [None] * pd, [0] * pd
